@@ -31,7 +31,7 @@ def instantiations(tier, seed):
             continue
         names = F.ALT_NAMES[(k + seed) % len(F.ALT_NAMES)]
         m = F.rename(F.symbolize(sk), names)
-        out.append({"model": m, "via": "Not" if k % 3 == 0 else "negate"})
+        out.append({"model": m, "via": "Not" if k % 3 == 0 else "negate", "warm": k % 3 == 1})
     base = F.symbolize(F.AL(2, F.a(), F.b(), F.c(), id="A", sign=1))
     for mu in ("no_complement", "off_by_one"):
         out.append({"kind": "mutant", "mutant": mu, "model": base, "via": "negate"})
@@ -61,6 +61,8 @@ def run_inst(spec, run):
         err = None
         neg = val = None
         try:
+            if spec.get("warm"):
+                plh.warm(ns, m1)
             neg = ns.pg.Not(m1) if spec["via"] == "Not" else m1.negate()
             val = neg.evaluate(dict(vals))
         except Exception as e:     # noqa
